@@ -36,6 +36,9 @@ REQUIRED_THEOREMS = [
     "source_sort_backward_walk_eq_model", "source_sort_forward_walk_eq_model", "source_sort_corner_rank_eq_model",
     "source_in_face_index_eq_model", "source_common_edge_eq_model", "source_face_to_vertices_eq_model", "source_edge_to_vertices_eq_model",
     "source_vertex_to_corners_reads_table", "source_vertex_to_vertices_reads_table",
+    # round 7
+    "source_face_first_corner_table_eq_model", "source_face_to_first_corner_eq_model", "source_face_to_corners_eq_model", "source_face_to_faces_eq_model", "source_cached_accessors_eq_model",
+    "umbrella_check_complete", "umbrella_check_iff", "ring_sorted_of_check",
 ]
 TRUSTED = [
     "Lean 4.33.0 kernel; axioms ⊆ {propext, Classical.choice, Quot.sound}",
@@ -846,9 +849,9 @@ def _smap():
     m[S + "SurfaceMesh._Connectivity._compute_connectivity"] = ("translated: corner loop, half-edge loops, opposite pass (Generated/C01HE.lean, bridge "
                                                                 "source_half_edge_tables_eq_model); the base-class call (_adjV2V) and the final "
                                                                 "call of _sort_vertex_neighborhoods are recognised and left to the hand model")
-    for f in ["SurfaceMesh.__init__", "SurfaceMesh.is_triangular", "SurfaceMesh.is_quad", "SurfaceMesh.clear_boundary_data",
-              "SurfaceMesh.is_vertex_on_border", "SurfaceMesh.interior_edges",
-              "SurfaceMesh.boundary_edges", "SurfaceMesh.boundary_vertices", "SurfaceMesh.interior_vertices",
+    for f in ["SurfaceMesh.__init__", "SurfaceMesh.clear_boundary_data",
+              
+              
               "SurfaceMesh._Connectivity.__init__", "SurfaceMesh._Connectivity.clear", 
               
               
@@ -856,8 +859,10 @@ def _smap():
               "SurfaceMesh._Connectivity.corner_to_face",
               
               
-              "SurfaceMesh._Connectivity.face_to_first_corner", "SurfaceMesh._Connectivity.face_to_corners", "SurfaceMesh._Connectivity.face_to_faces"]:
+              ]:
         m[S + f] = g
+    for a in CS.ACC4:
+        m[S + a[1]] = "translated: returns its cache, filled by the translated compute function (the lazy guard is checked on the guard table)"
     m[S + "SurfaceMesh._Connectivity._sort_vertex_neighborhoods"] = (
         "modelled: the whole body is compiled on every run (Generated/C01Sort.lean, refused shapes break the obligation) and its two walk loops "
         "are bridged to the model's walkBack / walkFwd, the rank lookup to keyOf (source_sort_*); the use of len(sort_index) as iteration count, "
@@ -900,7 +905,9 @@ MANIFEST = {
                    "condition at a vertex (decidable, evaluated by the driver on every input) vertex_to_corners is the rotational ring "
                    "(consecutive corners related by opposite∘previous; starts at the border corner for a border vertex; cyclic for an "
                    "interior vertex) whatever corner the walk starts from, and vertex_to_vertices/faces/edges are its images in the "
-                   "matching order with the half-edge-less border neighbour first; set-level specs of vertex_to_vertices, "
+                   "matching order with the half-edge-less border neighbour first; the umbrella condition is DECIDED by the checker the driver "
+                   "evaluates (umbrella_check_iff: sound and complete on built oriented meshes), so ring_sorted_of_check needs decidable "
+                   "hypotheses only; set-level specs of vertex_to_vertices, "
                    "opposite_face, common_edge; for histories a generic theorem "
                    "about lazily filled caches (any guard table that passes a decidable closure check answers every query, after every "
                    "finite history, with the pure answer and never raises) is instantiated by `decide` on the guard table re-extracted "
